@@ -297,8 +297,16 @@ impl<'a> ScriptGen<'a> {
         let slots = ["r0", "r1", "r2"];
         let peer = rng.pick(self.contracts).clone();
         let tys = self.handle_types(&peer);
-        match rng.below(4) {
+        match rng.below(5) {
             0 | 1 => out.push(Step::SaveRemote { slot: rng.pick(&slots).to_string(), addr: peer.addr.clone(), ty: rng.pick(&tys).clone(), form: rng.below(2) as u8 }),
+            4 => {
+                // any string is an address as far as the handle is concerned
+                const ODD: [&str; 8] = ["", "we\"ird", "back\\slash", "tab\there", "line\nbreak", "uni\u{e9}\u{4e16}", "ctl\u{1}x", "sp ace/colon:"];
+                let all: Vec<String> = rt::registry::all().into_iter().map(|(k, _)| k.clone()).collect();
+                let slot = rng.pick(&slots).to_string();
+                out.push(Step::SaveRemote { slot: slot.clone(), addr: rng.pick(&ODD).to_string(), ty: rng.pick(&all).clone(), form: rng.below(2) as u8 });
+                out.push(Step::Resave { slot, to: rng.pick(&slots).to_string(), ty: rng.pick(&all).clone() });
+            }
             2 => {
                 // any registered handle type may read any slot
                 let all: Vec<String> = rt::registry::all().into_iter().map(|(k, _)| k.clone()).collect();
